@@ -123,11 +123,14 @@ CLAIMS = {
              "primitives: cdb_unpack(cdbmake_pack(x)) = x for all x; cdb_hash = fold of cdbmake_hashadd (keys <= 12 bytes, bounded). "
              "cdb_seek()/match() (3 loop contracts, any database content, every fault): 'not found' only for an empty table, an "
              "empty slot or after every slot was probed - a slot with the same hash but another key does not end the search; "
-             "consecutive wrapping probe walk; every read/seek failure is an error (deferral), never 'not found'.",
+             "consecutive wrapping probe walk; every read/seek failure is an error (deferral), never 'not found'. "
+             "qmail-getpw userext() (loop contract, local part of any length): candidate users = the local part and its prefixes "
+             "before a dash, longest first, none skipped, each < 32 bytes and lower-cased; a user is chosen only if it exists, is not "
+             "root and owns its existing home directory; lookup trouble defers.",
         note="What the table contains is configuration (cdb_seek is an oracle in nughde_get; its own proof assumes tables of < 2^29 "
              "slots and takes the home-slot formula from the code). NOT covered: the whole-file "
              "agreement of the database compiler with the reader (cdbmake_split/throw ordering, 'first duplicate wins' - the "
-             "bounded attempt did not terminate, see DESIGN), qmail-getpw and qmail-pw2u.",
+             "bounded attempt did not terminate, see DESIGN), qmail-pw2u, and the output formatting of qmail-getpw main().",
         design_ref="DESIGN.md section 5 C11"),
     "C19": dict(
         text="Proof (CBMC) on the unmodified qmail-pop3d.c, each verb from an arbitrary session state (any number of "
